@@ -6,6 +6,7 @@ CONSTANTS Gens,      \* subset of {1, 2}: which generation's hooks run
           Flag,      \* "surplus" | "debt" | "dist" | "none"   (auction mapping flags of the behaviour)
           Generic,   \* TRUE: the environment may open one generic generation-2 auction
           Tm0,       \* token-mint data present at the start
+          Esm,       \* TRUE: the environment may execute the app's emergency shutdown (once)
           Nf0, Fund, MaxBids, MaxAuc, MaxT, Bidders, Emit
 
 C == [L |-> 10, DL |-> 20, ST |-> 20, DT |-> 30, bf1n |-> 1, bf1d |-> 10, bf2n |-> 1, bf2d |-> 5, A1 |-> 100, B1 |-> 30, A2 |-> 200]
@@ -19,11 +20,11 @@ St0 == [t |-> 6, nf |-> Nf0, nfFound |-> TRUE,
         fl |-> [sur |-> Flag = "surplus", debt |-> Flag = "debt", dist |-> Flag = "dist", active |-> FALSE],
         bal |-> [u1 |-> UBal, u2 |-> UBal, u3 |-> UBal, ext |-> [uatom |-> 10000, ucmst |-> 10000, uharbor |-> 0],
                  col |-> [Zero EXCEPT !.ucmst = Nf0], a1 |-> Zero, a2 |-> Zero],
-        auc |-> <<>>, n1 |-> 0, n2 |-> 0, tm |-> Tm0]
+        auc |-> <<>>, n1 |-> 0, n2 |-> 0, tm |-> Tm0, esm |-> FALSE, nfo |-> [uharbor |-> 0, uatom |-> 0]]
 InitArgs == [c |-> C, nf0 |-> Nf0, fund |-> Fund, sur |-> Flag = "surplus", debt |-> Flag = "debt", dist |-> Flag = "dist", tm |-> Tm0]
 
 (* identity of a model state, compact (the harness only needs it to rebuild the transition graph) *)
-Key(s) == <<s.t, s.nf, s.fl.active, s.n1, s.n2, s.tm,
+Key(s) == <<s.t, s.nf, s.fl.active, s.n1, s.n2, s.tm, s.esm,
             [i \in 1..Len(s.auc) |-> <<s.auc[i].gen, s.auc[i].id, s.auc[i].bid, s.auc[i].pay, s.auc[i].bidder, s.auc[i].nb, s.auc[i].endT, s.auc[i].bidEndT>>],
             [u \in {"u1", "u2", "u3"} |-> <<s.bal[u][CMST], s.bal[u][HARBOR], s.bal[u][ATOM]>>],
             <<s.bal["col"][CMST], s.bal["a1"][CMST], s.bal["a1"][HARBOR], s.bal["a2"][CMST], s.bal["a2"][HARBOR], s.bal["a2"][ATOM]>>>>
@@ -84,9 +85,10 @@ DoAdvance == 2 \notin Gens /\ st.t < MaxT /\ \E dt \in {C.B1 + 1, C.A1 + 1} : St
 DoGeneric == Generic /\ st.n2 = 0 /\ LET r == StartGeneric(st, C, 7, 12) IN Step("StartGeneric", [lot |-> 7, minBid |-> 12], r.st, FALSE)
 DoSurplusFund == Flag = "dist" /\ LET r == SurplusFund(st, C) IN Step("SurplusFund", [x |-> 0], r.st, FALSE)
 DoSeed == Flag = "dist" /\ st.nf < 60 /\ st.bal["ext"][CMST] < 10040 /\ Step("SeedFees", [x |-> 13], SeedFees(st, 13), FALSE)
+DoEsm == Esm /\ ~st.esm /\ Step("EsmOn", [x |-> 0], EsmOn(st), FALSE)
 DoMint == ~st.tm /\ Step("MintGenesis", [x |-> 0], MintGenesis(st).st, FALSE)
 
-Next == DoBid \/ DoBadBid \/ DoHookV1 \/ DoBlock \/ DoAdvance \/ DoGeneric \/ DoMint \/ DoSurplusFund \/ DoSeed
+Next == DoBid \/ DoBadBid \/ DoHookV1 \/ DoBlock \/ DoAdvance \/ DoGeneric \/ DoMint \/ DoSurplusFund \/ DoSeed \/ DoEsm
 Spec == Init /\ [][Next]_vars
 
 StateBound == st.n1 + st.n2 <= MaxAuc /\ st.t <= MaxT
